@@ -329,16 +329,19 @@ class Worker:
 
         mailbox_id = result.return_address.mailbox_index
         with self.mailbox_mutex:
-            if mailbox_id not in self._mailboxes:
+            box = self._mailboxes.get(mailbox_id)
+            if box is None:
                 # If the mailbox has been dropped due to a cancel, ignore result
                 return
 
-            box = self._mailboxes[mailbox_id]
             box.deposit_result(result)
 
             if box.has_task_waiting:
                 assert box.dest_addr is not None
-                task = self._tasks[box.dest_addr]
+                task = self._tasks.get(box.dest_addr)
+                if task is None:
+                    # The waiting task was cancelled in the meantime
+                    return
 
                 if task.wake_on_next or box.ready:
                     # print(f'Worker {self._id} is waking task
